@@ -83,6 +83,27 @@ pub mod stdspecs {
                 &&& (r.unwrap()@.len() == s.len() ==> split_done(final(it)))
             });
 
+    // ---- <[T]>::chunks(n) and its iterator ------------------------------------------------------------------
+    #[verifier::external_type_specification]
+    #[verifier::external_body]
+    #[verifier::accept_recursive_types(T)]
+    pub struct ExChunks<'a, T: 'a>(core::slice::Chunks<'a, T>);
+    pub uninterp spec fn chunks_rest<'a, T>(c: &core::slice::Chunks<'a, T>) -> Seq<T>;
+    pub uninterp spec fn chunks_size<'a, T>(c: &core::slice::Chunks<'a, T>) -> nat;
+    pub assume_specification<T>[ <[T]>::chunks ](s: &[T], chunk_size: usize) -> (r: core::slice::Chunks<'_, T>)
+        requires chunk_size > 0
+        ensures chunks_rest(&r) == s@, chunks_size(&r) == chunk_size;
+    pub assume_specification<'a, T>[ <core::slice::Chunks<'a, T> as Iterator>::next ](it: &mut core::slice::Chunks<'a, T>) -> (r: Option<&'a [T]>)
+        ensures
+            chunks_size(final(it)) == chunks_size(old(it)),
+            chunks_rest(old(it)).len() == 0 ==> r is None && chunks_rest(final(it)).len() == 0,
+            chunks_rest(old(it)).len() > 0 ==> ({
+                let s = chunks_rest(old(it));
+                let k = if s.len() <= chunks_size(old(it)) { s.len() as int } else { chunks_size(old(it)) as int };
+                &&& r is Some && r.unwrap()@ == s.subrange(0, k)
+                &&& chunks_rest(final(it)) == s.subrange(k, s.len() as int)
+            });
+
     /// a byte predicate closure that decides `x == c`
     pub open spec fn decides_eq<P: FnMut(&u8) -> bool>(p: P, c: u8) -> bool {
         forall|x: u8, r: bool| #[trigger] call_ensures(p, (&x,), r) ==> r == (x == c)
